@@ -228,13 +228,34 @@ class H:
             items = list(flat_syms(x)) if isinstance(x, np.ndarray) else [((), tosym(x))]
             got = False
             t = 0.0
-            for idx, s in items:
-                v = smt.decide_zero(s, None, self.ladder[:2])
-                t += v.time
-                if v.verdict == 'sat':
-                    got = True
-                    break
-            vv = smt.Verdict('sat' if got else 'unsat', 'canary', t)
+            verdicts = []
+            # a false identity only needs ONE point where it fails: first a ground instance at a witness of the current path (exact
+            # rational evaluation, decided without the solver), then the solver
+            env = None
+            try:
+                env = self.ex.witness_env() if (self.ex is not None and not self.ex.rootvars) else None
+            except Exception:   # noqa
+                env = None
+            if env is not None:
+                from . import zeval
+                for idx, s in items:
+                    try:
+                        r = s.c if s.c is not None else zeval.eval_exact(s.a, env)
+                    except Exception:   # noqa
+                        continue
+                    if r != 0:
+                        got = True
+                        break
+            if not got:
+                for idx, s in items:
+                    v = smt.decide_zero(s, None, self.ladder[:2])
+                    t += v.time
+                    verdicts.append(v.verdict)
+                    if v.verdict == 'sat':
+                        got = True
+                        break
+            # all `unsat` = the false variant was PROVEN (harness error); a time-out is inconclusive, not a proof
+            vv = smt.Verdict('sat' if got else ('unsat' if verdicts and all(x_ == 'unsat' for x_ in verdicts) else 'unknown'), 'canary', t)
             return self._rec(key, 'canary', vv, 'sat')
         return True
 
